@@ -527,7 +527,9 @@ let swr_case (f : string array) : string =
               let ok = Model.sw_system_ok_b (nat_of_int (int_of_string n)) (List.map prog ps) in
               if f.(4) = "1" && not ok then
                 bad := Some "the generator marks this script as one that can always make progress, the checker system_ok_b rejects it"
-              else if ok && f.(3) <> "-" then
+              else if ok && Array.length f > 6 && f.(6) = "1" && f.(3) <> "-" then
+                (* f.(6) = 1: the connection thread starts every other thread before it works on a writer of its own, so
+                   that every program of the system can really move (the premise of the theorem) *)
                 bad := Some (Printf.sprintf "a well-ordered system (system_ok_b) is blocked for ever at %s" f.(3))
           | [] -> ()
         end;
